@@ -210,7 +210,12 @@ impl World {
     pub fn observe_all(&self) -> Result<[Option<Obs>; SLOTS], Vec<Failure>> {
         let mut out: [Option<Obs>; SLOTS] = [const { None }; SLOTS];
         for i in 0..SLOTS {
-            out[i] = self.observe(i)?;
+            out[i] = self.observe(i).map_err(|mut fails| {
+                // a handle that cannot even be read does not "read back what a String holds" either
+                let d = fails.first().map(|f| f.detail.clone()).unwrap_or_default();
+                fails.push(Failure::new("C01.unreadable_handle", d));
+                fails
+            })?;
         }
         Ok(out)
     }
